@@ -362,15 +362,23 @@ class JSONGrammar(BaseGrammar):
     def schema(self) -> Schema:
         """The dictionary representation of the schema."""
         if not self.__schema:
-            with self.__sync_required_names():
-                self.__schema = self.__schema_builder.to_schema()
-        return self.__schema
+            self.__schema = self.__schema_builder.to_schema()
+            # The required names are not cached
+            # because they can be modified without resetting the cached schema.
+            self.__schema.pop("required", None)
+        schema = self.__schema.copy()
+        if self._required_names:
+            schema["required"] = sorted(self._required_names)
+        return schema
 
     def _create_validator(self) -> None:
         """Create the schema validator."""
-        self.schema.pop("id", None)
-        self.schema.pop("required", None)
-        self.__validator = compile_schema(self.schema)
+        # Work on a copy in order not to alter the cached schema,
+        # the required names are checked by BaseGrammar.validate.
+        schema = self.schema
+        schema.pop("id", None)
+        schema.pop("required", None)
+        self.__validator = compile_schema(schema)
 
     def set_descriptions(self, descriptions: Mapping[str, str]) -> None:
         """Set the properties descriptions.
